@@ -125,7 +125,9 @@ func JsonContainerReader(container map[string]interface{}) node.Node {
 		// part of the meta, that disqualifies that case and we move onto next case
 		// until one case aligns with data.  If no cases align then input in inconclusive
 		// i.e. non-discriminating and we should error out.
-		for _, kase := range choice.Cases() {
+		// (in case-name order so the answer does not depend on map order)
+		for _, caseId := range choice.CaseIdents() {
+			kase := choice.Cases()[caseId]
 			for _, prop := range kase.DataDefinitions() {
 				if _, found := fqkGet(prop, container); found {
 					return kase, nil
